@@ -86,13 +86,13 @@ func digestImage(im image.Image) string {
 func buildAPICalls(seed int64) []apiCall {
 	rng := rand.New(rand.NewSource(seed))
 	imgs := map[string]*image.NRGBA{
-		"33x17":        noiseNRGBA(rng, 33, 17, 0),
-		"48x32":        noiseNRGBA(rng, 48, 32, 0), // same macroblock grid as 33x17: 3x2
-		"40x24-alpha":  noiseNRGBA(rng, 40, 24, 2),
-		"96x128":       noiseNRGBA(rng, 96, 128, 0), // parallel lossy path
-		"64x80-alpha":  gradientAlpha(rng, 64, 80),
-		"pal-20x20":    palettedNRGBA(rng, 20, 20, 7),
-		"260x200":      noiseNRGBA(rng, 260, 200, 0), // > 50 000 px: parallel lossless sections
+		"33x17":       noiseNRGBA(rng, 33, 17, 0),
+		"48x32":       noiseNRGBA(rng, 48, 32, 0), // same macroblock grid as 33x17: 3x2
+		"40x24-alpha": noiseNRGBA(rng, 40, 24, 2),
+		"96x128":      noiseNRGBA(rng, 96, 128, 0), // parallel lossy path
+		"64x80-alpha": gradientAlpha(rng, 64, 80),
+		"pal-20x20":   palettedNRGBA(rng, 20, 20, 7),
+		"260x200":     noiseNRGBA(rng, 260, 200, 0), // > 50 000 px: parallel lossless sections
 	}
 	var calls []apiCall
 	files := map[string][]byte{}
